@@ -272,10 +272,10 @@ def multi_map(p, m, v):
                     return True
         elif fl["kind"] == "message":
             sub = p["messages"][p["index"][fl["msg"]]]
-            if fl["is_list"]:
-                if "a" in x and any(multi_map(p, sub, e) for e in x["a"]):
+            if fl["is_list"] and "a" in x:
+                if any(multi_map(p, sub, e) for e in x["a"]):
                     return True
-            elif multi_map(p, sub, x):
+            elif multi_map(p, sub, x):          # a singular message, or a lone object given for a repeated field
                 return True
     return False
 
